@@ -1,4 +1,4 @@
-(* Model of _jpeg.decode_chunk.  Pillow is an oracle: the harness reports what
+(* Model of _jpeg.decode_chunk (as of /repo commit 95d7b2e).  Pillow is an oracle: the harness reports what
    PIL.Image.open and the pixel load did on the same bytes. *)
 From Coq Require Import NArith List Bool Lia.
 From NGS Require Import Val Ints Words Arr4.
@@ -6,7 +6,7 @@ Import ListNotations.
 Open Scope N_scope.
 
 Inductive pil_load : Type :=
-| LoadFail                              (* OSError from the lazy load inside np.asarray(img) *)
+| LoadFail                              (* the lazy load inside np.asarray(img) raised *)
 | Pixels (bands : N) (px : list N).     (* h*w*bands samples, row major, band fastest *)
 
 Inductive pil_result : Type :=
@@ -28,7 +28,7 @@ Definition jpeg_decode (nc cx cy cz : N) (r : pil_result) : outcome arr4 :=
       if (nc =? 1) && negb (list_eqb mode mode_L) then FormatErr
       else if (nc =? 3) && negb (list_eqb mode mode_RGB) then FormatErr
       else match ld with
-           | LoadFail => IOErr                     (* not caught by the code *)
+           | LoadFail => FormatErr                 (* caught: except Exception -> InvalidFormatError *)
            | Pixels bands px =>
                let data := if (nc =? 3) && negb (bands =? 0) then bands_first bands px else px in
                if negb (lenN px =? nc * cz * cy * cx) then FormatErr
